@@ -105,8 +105,8 @@ CLAIMS["C12"] = dict(
     text=("Table kernel only: one add_nodes(responder, [name]) on a directly built 2-bucket table whose stored contact has an arbitrary "
           "standing: a fresh name and a second id on the responder's address are admitted exactly as questionable, the local id never "
           "appears, nothing else is admitted, a stored contact named by hearsay keeps its standing (thorough), a contact is found only under "
-          "its full (id, address) handle; transaction ids are accepted only at 8 bytes. The router-address clause is decided only in the "
-          "thorough tier (std HashSet is barely tractable, F4/F17). The handler-side clauses (queries never add their sender; responses "
+          "its full (id, address) handle; transaction ids are accepted only at 8 bytes. The router-address clause is NOT decided (`routers` is a "
+          "std HashSet, not tractable here even on concrete data, F4/F17). The handler-side clauses (queries never add their sender; responses "
           "routed by action prefix) are NOT decided."),
     note="handler.rs is outside the engine's reach (F7); table built directly with concrete identities (F21); RandomState stubbed with zero keys.",
 )
